@@ -17,6 +17,7 @@ import (
 	"errors"
 	"fmt"
 	"math/rand"
+	"runtime"
 	"sort"
 	"strings"
 	"sync"
@@ -863,7 +864,7 @@ func evalMembership(t *testing.T, run *ev.Run, r *rand.Rand, mi int, hosts []str
 			}
 			run.Distinct("membership_sizes", fmt.Sprint(n))
 			run.Distinct("host_styles", style)
-			if run.WantSample() && mi%3 == 1 && first.script == "random-half" {
+			if run.WantSample() && mi%2 == 1 && first.script == "mostly-unhealthy" {
 				s := r.Intn(numShards)
 				run.Sample(map[string]interface{}{"case": first.caseID, "hosts": hosts, "max_replica": first.g.mr, "healthy": hl,
 					"shard": fmt.Sprintf("%04x", s), "locations": first.tr.ring.Locations(digests[s]),
@@ -1151,6 +1152,10 @@ func concurrentPhase(run *ev.Run) {
 			run.Count("inflight_transitions_"+kind, 1)
 			if parked {
 				run.Count("inflight_refreshes_parked_in_notify", 1)
+				if ti < 12 && ri == 0 && membershipChanges && matchedOld+matchedNew > 0 && run.WantSample() {
+					run.Sample(map[string]interface{}{"case": caseID, "transition": kind, "max_replica": mr, "state_before": cur, "state_after": next,
+						"answers_while_refresh_parked": total, "equal_to_old_state": matchedOld, "equal_to_new_state": matchedNew})
+				}
 			}
 			run.Count("inflight_answers_judged", total)
 			run.Count("inflight_answers_equal_to_old_state", matchedOld)
@@ -1224,6 +1229,16 @@ func concurrentPhase(run *ev.Run) {
 			smu.Lock()
 			finished = int64(i)
 			smu.Unlock()
+			// let the readers see every state a few times (count-based, no clock)
+			for target := int64(i) * 12; ; {
+				fmu.Lock()
+				seen := freeTotal
+				fmu.Unlock()
+				if seen >= target {
+					break
+				}
+				runtime.Gosched()
+			}
 		}
 		close(stop)
 		wg.Wait()
